@@ -5,7 +5,8 @@ reach them).
 
 Scenario (JSON): {"id", "about", "kind": "lsp", "files": {rel: text}, "lsp": [step...], "defect_when": [cond...]}
 step:  {"open": rel [, "text": t]}                      didOpen (text defaults to the file's content)
-       {"change": rel, "text": t}                        didChange (full sync)
+       {"change": rel, "text": t}                        didChange (full sync); "texts": [t1, t2, ..] sends several
+                                                         content changes in ONE notification
        {"request": method, "file": rel, "line": l, "character": c [, "params": {...extra}] , "label": L}
        {"request": method, "params": {...}, "label": L}   (any other request; ${ROOT} / ${URI:rel} are substituted)
        ... "params_from": {"key": {"label": L0, "path": "0"}}   params[key] := (part of) an earlier raw result
@@ -182,7 +183,7 @@ def run_one(sc):
                 rel = st['change']
                 versions[rel] = versions.get(rel, 1) + 1
                 srv.notify('textDocument/didChange', {'textDocument': {'uri': uri_of(os.path.join(root, rel)), 'version': versions[rel]},
-                                                      'contentChanges': [{'text': st['text']}]})
+                                                      'contentChanges': [{'text': t} for t in st.get('texts', [st.get('text', '')])]})
                 srv.drain(timeout=0.5)
             elif 'request' in st:
                 params = subst(st.get('params', {}), root, sc.get('files', {}))
